@@ -12,8 +12,13 @@
       lR, lC, lL   live routers / clusters / listeners
       sR, sC, sL   stored configuration
    The property: what the live objects answer == what objects freshly built from the stored
-   configuration answer (Coherent), the last update wins (also for the attributes of a host address named again), removed objects are gone, an endpoint
+   configuration answer (Coherent, i.e. Rebuild(Dump(live)) = live after EVERY operation), the last update wins (also for the attributes of a host address named again), removed objects are gone, an endpoint
    assignment is the union of its localities, failed operations change nothing.
+   The storage mode of the dump is part of the configuration space: clusters are written inline or as one file
+   per cluster into the `clusters_configs` directory, the virtual hosts of a router inline or as one file per
+   virtual host into its `router_configs` directory (config/v2 ClusterManagerConfig / RouterConfiguration
+   MarshalJSON: read the directory, write one file per entry under a sanitised name, delete the files no entry
+   owns; UnmarshalJSON reads the directory back).  cDir / rDir model the directories, a dump follows every operation.
    `Defects` switches on the named ways this design can go wrong (the *_defect cfgs must be rejected). *)
 EXTENDS Integers, Sequences, FiniteSets, TLC, Json
 
@@ -30,6 +35,8 @@ CONSTANTS Routers,    \* router configuration names
           HostSets,   \* sets of host addresses used as arguments
           Attrs,      \* attribute classes of a host (a1 = weight 1 / version v1, a2 = weight 2 / version v2)
           LocLists,   \* names of locality lists used by UpdateEndpoints (see LocDef)
+          CModes,     \* storage modes of the dumped clusters to enumerate: subset of {"inline", "dir"}
+          RModes,     \* storage modes of the dumped routers to enumerate
           Defects
 
 AllOps == {"routers", "nilrouters", "addroute", "rmroutes",
@@ -40,13 +47,17 @@ None == "none"
 
 (* ---------------- argument universe (cfg files cannot write tuples / records) ---------------- *)
 Rt(p, c) == [pre |-> p, cl |-> c]
-VH(d, rs) == [dom |-> d, routes |-> rs]
+VH(n, d, rs) == [name |-> n, dom |-> d, routes |-> rs]
+(* virtual host names (the file names in directory mode): one with a path separator, one a prefix of another *)
 RouterCfg(k) ==
-  CASE k = "A" -> << VH("*", << Rt("/", "c1") >>) >>
-    [] k = "B" -> << VH("a.com", << Rt("/x", "c2"), Rt("/", "c1") >>), VH("*", << Rt("/", "c2") >>) >>
-    [] k = "C" -> << VH("a.com", << >>) >>                                   \* no default virtual host
+  CASE k = "A" -> << VH("web", "*", << Rt("/", "c1") >>) >>
+    [] k = "B" -> << VH("web/a", "a.com", << Rt("/x", "c2"), Rt("/", "c1") >>), VH("web", "*", << Rt("/", "c2") >>) >>
+    [] k = "C" -> << VH("web/a", "a.com", << >>) >>                          \* no default virtual host
     [] k = "E" -> << >>                                                      \* no virtual host: table cannot be built
-    [] k = "D" -> << VH("*", << Rt("/", "c1") >>), VH("*", << Rt("/", "c2") >>) >>   \* duplicate default: invalid
+    [] k = "D" -> << VH("web", "*", << Rt("/", "c1") >>), VH("web2", "*", << Rt("/", "c2") >>) >>   \* duplicate default: invalid
+(* the file name an entry is written under: path separators are replaced (strings.ReplaceAll(name, sep, "_")) *)
+KeyOf(n) == CASE n = "g/c1" -> "g_c1" [] n = "web/a" -> "web_a" [] OTHER -> n
+KeyOrder == << "c1", "c12", "c2", "g_c1", "web", "web2", "web_a" >>     \* directory listing order (ioutil.ReadDir sorts)
 RtDef(n) == CASE n = "x1" -> Rt("/x", "c1") [] n = "s2" -> Rt("/", "c2") [] n = "x2" -> Rt("/x", "c2") [] n = "s1" -> Rt("/", "c1")
 Uni(S, a) == [h \in S |-> a]          \* the host map giving every address of S the attribute class a
 LocDef(n, a) ==
@@ -60,10 +71,13 @@ LocDef(n, a) ==
 Probes == << <<"a.com", "/x">>, <<"a.com", "/y">>, <<"zz.com", "/x">>, <<"zz.com", "/y">> >>
 
 VARIABLES lR, sR, lC, sC, lL, sL,
+          cMode, rMode,   \* storage mode of the dumped clusters / routers: "inline" | "dir" (fixed during a history)
+          cDir,           \* clusters_configs directory: file name -> [n |-> cluster name, v |-> cluster]
+          rDir,           \* per router its router_configs directory: file name -> virtual host
           err,     \* did the last operation report an error
           pre,     \* <<lR, sR, lC, sC, lL, sL>> before the last operation
           hist
-vars == <<lR, sR, lC, sC, lL, sL, err, pre, hist>>
+vars == <<lR, sR, lC, sC, lL, sL, cMode, rMode, cDir, rDir, err, pre, hist>>
 state == <<lR, sR, lC, sC, lL, sL>>
 
 (* ---------------- routers ---------------- *)
@@ -198,16 +212,49 @@ DoRmListener(n) ==       \* DeleteListener: unknown names are accepted silently
   /\ sL' = IF "ListenerDeleteNotRecorded" \in Defects THEN sL ELSE [sL EXCEPT ![n] = AbsentL]
   /\ err' = FALSE /\ Same(<<lR, sR, lC, sC>>)
 
+(* ---------------- the dump and what a restarted MOSN reads back ---------------- *)
+NoFiles == [k \in {} |-> 0]
+(* one directory-mode dump: list the directory, write one file per entry, delete the listed files no entry owns *)
+Owned(names) == IF "SweepUsesRawName" \in Defects THEN names ELSE { KeyOf(n) : n \in names }
+DumpDir(old, names, Content(_)) ==
+  LET written == [k \in { KeyOf(n) : n \in names } |-> Content(CHOOSE n \in names : KeyOf(n) = k)]
+      swept == DOMAIN old \ Owned(names)
+  IN [k \in DOMAIN written \ swept |-> written[k]]
+Dump ==
+  /\ cDir' = IF cMode = "dir"
+             THEN LET CC(c) == [n |-> c, v |-> sC'[c]]
+                  IN DumpDir(cDir, { c \in Clusters : sC'[c].st = "ok" }, CC)
+             ELSE cDir
+  /\ rDir' = [r \in Routers |->
+               IF rMode = "dir" /\ sR'[r].st = "set"
+               THEN LET vhs == sR'[r].vhs
+                        VC(n) == vhs[CHOOSE i \in DOMAIN vhs : vhs[i].name = n]
+                    IN DumpDir(rDir[r], { vhs[i].name : i \in DOMAIN vhs }, VC)
+               ELSE rDir[r]]
+  /\ UNCHANGED <<cMode, rMode>>
+(* the stored configuration as a restarted MOSN loads it *)
+RebuildC(c) == IF cMode = "inline" THEN sC[c]
+               ELSE LET ks == { k \in DOMAIN cDir : cDir[k].n = c }
+                    IN IF ks = {} THEN AbsentC ELSE cDir[CHOOSE k \in ks : TRUE].v
+RebuildR(r) == IF rMode = "inline" \/ sR[r].st = "absent" THEN sR[r]
+               ELSE LET Present(k) == k \in DOMAIN rDir[r]
+                        ks == SelectSeq(KeyOrder, Present)
+                    IN [st |-> "set", vhs |-> [i \in 1..Len(ks) |-> rDir[r][ks[i]]]]
+
 (* ---------------- behaviours ---------------- *)
 (* arguments: every address set with one attribute class for all its members *)
 HostMaps == { Uni(S, a) : S \in HostSets, a \in Attrs }
 LocArgs == { LocDef(n, a) : n \in LocLists, a \in Attrs }
-Init == /\ lR = [r \in Routers |-> AbsentR] /\ sR = [r \in Routers |-> AbsentR]
+InitWith(cm, rm) ==
+        /\ lR = [r \in Routers |-> AbsentR] /\ sR = [r \in Routers |-> AbsentR]
         /\ lC = [c \in Clusters |-> AbsentC] /\ sC = [c \in Clusters |-> AbsentC]
         /\ lL = [n \in Listeners |-> AbsentL] /\ sL = [n \in Listeners |-> AbsentL]
+        /\ cMode = cm /\ rMode = rm /\ cDir = NoFiles /\ rDir = [r \in Routers |-> NoFiles]
         /\ err = FALSE /\ pre = <<lR, sR, lC, sC, lL, sL>> /\ hist = << >>
+Init == \E cm \in CModes, rm \in RModes : InitWith(cm, rm)
 
-Log(rec) == hist' = Append(hist, rec) /\ pre' = state
+(* the effective configuration is dumped after every operation *)
+Log(rec) == hist' = Append(hist, rec) /\ pre' = state /\ Dump
 
 Next ==
   /\ Len(hist) < MaxOps
@@ -240,8 +287,8 @@ Spec == Init /\ [][Next]_vars
 
 (* ---------------- C12 ---------------- *)
 (* live objects answer exactly what objects rebuilt from the stored configuration answer *)
-Coherent == /\ \A r \in Routers : ViewR(lR[r]) = ViewR(BuildR(sR[r]))
-            /\ \A c \in Clusters : ViewC(lC[c]) = ViewC(BuildC(sC[c]))
+Coherent == /\ \A r \in Routers : ViewR(lR[r]) = ViewR(BuildR(RebuildR(r)))
+            /\ \A c \in Clusters : ViewC(lC[c]) = ViewC(BuildC(RebuildC(c)))
             /\ \A n \in Listeners : lL[n] = sL[n]
 
 Last == hist[Len(hist)]
@@ -281,5 +328,6 @@ FrameCondition ==
     /\ Last.op \in {"listener", "rmlistener"} => <<lR, sR, lC, sC>> = <<pre[1], pre[2], pre[3], pre[4]>>
 
 (* one CASE line per complete history, consumed by the Go driver *)
-EmitCase == (Len(hist) = MaxOps) => PrintT(<<"CASE", ToJson([ops |-> hist])>>)
+EmitCase == (Len(hist) = MaxOps) =>
+              PrintT(<<"CASE", ToJson([ops |-> hist, cm |-> cMode, rm |-> rMode, cl |-> Clusters, rt |-> Routers, ls |-> Listeners])>>)
 ====
